@@ -16,7 +16,7 @@ PROP = 'C34'
 LEVEL = 'exploration'
 NEEDS_REF = True
 RULE = ('seeded stratified generation: ODE family (y\'=ay, oscillator, y\'=+-y^2, triangular linear system, y\'=cos(ax), y\'=axy, '
-        'polynomial right-hand side) x tolerance (default / user) x degree (auto / user) x precision 30..200 x evaluation history; '
+        'polynomial right-hand side, y\'=-2xy^2 from x0=0) x tolerance (default / user) x degree (auto / user) x precision 30..200 x evaluation history; '
         'a case is one (ODE, plan) pair; non-trivial when the history run evaluated at least one point out of order or after a precision '
         'change and the comparison with the in-order run was made; distinct = distinct (family, parameters, options, precision, plan)')
 ASSUMPTIONS = ['the reference release (mpmath 1.3.0) at 2p+200 bits evaluates exp/sin/cos of exactly transferred arguments with relative '
@@ -35,7 +35,7 @@ SHARD_TIMEOUT = {'quick': 500, 'thorough': 3000}
 
 NSHARDS = 16
 COUNTS = {'quick': 60, 'thorough': 500}
-FAMS = ['exp', 'osc', 'ysq', 'ysqm', 'tri', 'cosx', 'xy', 'poly']
+FAMS = ['exp', 'osc', 'ysq', 'ysqm', 'tri', 'cosx', 'xy', 'poly', 'rat']
 PRECS_Q = [30, 40, 53, 64, 80, 100, 113]
 PRECS_T = [30, 40, 53, 64, 80, 100, 113, 150, 200]
 
@@ -76,6 +76,8 @@ def build(mp, spec):
         return (lambda x, y: a * x * y), y0
     if fam == 'poly':
         return (lambda x, y: 3 * x * x + b), y0
+    if fam == 'rat':
+        return (lambda x, y: -2 * x * y * y), y0
     raise ValueError(fam)
 
 
@@ -103,6 +105,8 @@ def exact(M, spec, xq):
         return [y0 * M.exp(a * (x * x - x0 * x0) / 2)]
     if fam == 'poly':
         return [y0 + x ** 3 - x0 ** 3 + b * t]
+    if fam == 'rat':
+        return [1 / (1 / y0 + x * x)]           # x0 = 0: an even solution (every odd Taylor coefficient vanishes)
     raise ValueError(fam)
 
 
@@ -120,6 +124,9 @@ def gen_case(r, i, tier):
     y0 = dyadic(r, Fr(1, 8), 3, 64)
     x0 = dyadic(r, -2, 2, 8)
     X = Fr(r.choice([1, 3, 10]))
+    if fam == 'rat':
+        x0 = Fr(0)
+        X = min(X, Fr(3))
     if fam == 'ysq':
         X = min(X, Fr(int(Fr(3, 4) / y0 * 64), 64))        # at most 3/4 of the way to the pole, on the dyadic grid
     opt = (i // (len(FAMS) * 2)) % 4
@@ -299,12 +306,14 @@ def run_case(mp, rec, spec):
         if ratio > 1 + guard:
             where = 'x0' if xq == x0 else 'x>x0'
             key = 'C34/accuracy/%s/%s' % (where, 'user-tol' if spec['tolk'] else 'default-tol')
-            # mechanism (read from the live object): the highest Taylor coefficient of the FIRST segment is exactly zero for a
-            # solution whose series does not terminate -> the step-size rule is skipped and the segment is given radius 1/2
+            # mechanism (read from the live object): a segment on the way to x got the default radius 1/2, i.e. the step-size
+            # rule (which looks at the last Taylor coefficient only) was skipped or capped because that coefficient is zero /
+            # negligible although the series does not terminate
             try:
                 sd = closure_var(fA, 'series_data')
-                if fam != 'poly' and sd and all(not s[-1] for s in sd[0][0]):
-                    key = 'C34/accuracy/first-segment-top-coefficient-zero'
+                xv = mp.make_mpf(xr)
+                if fam != 'poly' and sd and any(sxb - sxa == 0.5 for (_, sxa, sxb) in sd if sxa <= xv):
+                    key = 'C34/accuracy/segment-with-default-radius'
             except Exception:
                 pass
             rec.violation(key,
